@@ -32,3 +32,161 @@ Print Assumptions C18_ifem_flag_injective.
 (* non-vacuity: two patches sharing two points *)
 Example C18_example : number_model [[10; 11; 12; 13]; [12; 13; 14; 15]; [15; 10]] = ([[0; 1; 2; 3]; [2; 3; 4; 5]; [5; 0]], 6).
 Proof. vm_compute. reflexivity. Qed.
+
+(* ------------------------------------------------------------------------------------------------------
+   Added in build session 4 (statements re-stated from the proof files by harness tooling; each is closed by
+   exact). *)
+From SplipyModel Require Import Model.Faces Proofs.FacesProofs.
+Theorem C18_cell_numbers_bijection :
+  forall (shs : list idx3) (nums : list (list nat)) (n : nat),
+         cell_numbers_model shs = (nums, n) ->
+         n = total_cells shs /\
+         NoDup (concat nums) /\
+         length (concat nums) = n /\
+         (forall v : nat, In v (concat nums) <-> v < n) /\
+         (forall v : nat, v < n -> count_occ Nat.eq_dec (concat nums) v = 1).
+Proof. exact @cell_numbers_bijection. Qed.
+Print Assumptions C18_cell_numbers_bijection.
+
+Theorem C18_face_count :
+  forall start nx ny nz : nat,
+         1 <= nx ->
+         1 <= ny ->
+         1 <= nz ->
+         length (internal_faces_all start (nx, ny, nz)) = 3 * nx * ny * nz - (ny * nz + nx * nz + nx * ny) /\
+         length (internal_faces_all start (nx, ny, nz)) + (ny * nz + nx * nz + nx * ny) = 3 * nx * ny * nz /\
+         length (boundary_faces_all start (nx, ny, nz)) = 2 * (ny * nz + nx * nz + nx * ny) /\
+         length (patch_faces start (nx, ny, nz)) = 3 * nx * ny * nz + (ny * nz + nx * nz + nx * ny).
+Proof. exact @face_count. Qed.
+Print Assumptions C18_face_count.
+
+Theorem C18_internal_face_owner_neighbor :
+  forall (start : nat) (sh : idx3) (f : face),
+         In f (internal_faces_all start sh) ->
+         exists (d : nat) (q : idx3),
+           d < 3 /\
+           In f (internal_faces start sh d) /\
+           in_cells sh q /\
+           in_cells sh (add_e d q) /\
+           owner f = cell_number start sh q /\
+           neighbor f = Some (cell_number start sh (add_e d q)) /\
+           cell_number start sh q < cell_number start sh (add_e d q) /\
+           cell_number start sh (add_e d q) = cell_number start sh q + stride sh d /\ adjacent q (add_e d q).
+Proof. exact @internal_face_owner_neighbor. Qed.
+Print Assumptions C18_internal_face_owner_neighbor.
+
+Theorem C18_adjacent_cells_have_face :
+  forall (start : nat) (sh c c' : idx3),
+         in_cells sh c ->
+         in_cells sh c' ->
+         adjacent c c' ->
+         exists f : face,
+           In f (internal_faces_all start sh) /\
+           (owner f = cell_number start sh c /\ neighbor f = Some (cell_number start sh c') \/
+            owner f = cell_number start sh c' /\ neighbor f = Some (cell_number start sh c)).
+Proof. exact @adjacent_cells_have_face. Qed.
+Print Assumptions C18_adjacent_cells_have_face.
+
+Theorem C18_internal_pairs_NoDup :
+  forall (start : nat) (sh : idx3), NoDup (map face_pair (internal_faces_all start sh)).
+Proof. exact @internal_pairs_NoDup. Qed.
+Print Assumptions C18_internal_pairs_NoDup.
+
+Theorem C18_cell_six_faces :
+  forall (start : nat) (sh c : idx3),
+         pos_shape sh -> in_cells sh c -> length (filter (touches (cell_number start sh c)) (patch_faces start sh)) = 6.
+Proof. exact @cell_six_faces. Qed.
+Print Assumptions C18_cell_six_faces.
+
+Theorem C18_internal_face_nodes :
+  forall (start : nat) (sh : idx3) (d : nat) (f : face),
+         d < 3 ->
+         In f (internal_faces start sh d) ->
+         exists q : idx3,
+           in_cells sh q /\
+           in_cells sh (add_e d q) /\
+           owner f = cell_number start sh q /\
+           neighbor f = Some (cell_number start sh (add_e d q)) /\
+           (forall p : idx3, In p (nodes f) <-> In p (corners q) /\ In p (corners (add_e d q))) /\
+           NoDup (nodes f) /\ (forall p : idx3, In p (nodes f) -> in_cps sh p).
+Proof. exact @internal_face_nodes. Qed.
+Print Assumptions C18_internal_face_nodes.
+
+Theorem C18_boundary_lower_face_nodes :
+  forall (start : nat) (sh : idx3) (d : nat) (f : face),
+         d < 3 ->
+         pos_shape sh ->
+         In f (boundary_faces start sh d false) ->
+         exists q : idx3,
+           in_cells sh q /\
+           get d q = 0 /\
+           owner f = cell_number start sh q /\
+           neighbor f = None /\
+           (forall p : idx3, In p (nodes f) <-> In p (corners q) /\ get d p = 0) /\
+           NoDup (nodes f) /\ (forall p : idx3, In p (nodes f) -> in_cps sh p).
+Proof. exact @boundary_lower_face_nodes. Qed.
+Print Assumptions C18_boundary_lower_face_nodes.
+
+Theorem C18_boundary_upper_face_nodes :
+  forall (start : nat) (sh : idx3) (d : nat) (f : face),
+         d < 3 ->
+         pos_shape sh ->
+         In f (boundary_faces start sh d true) ->
+         exists q : idx3,
+           in_cells sh q /\
+           S (get d q) = get d sh /\
+           owner f = cell_number start sh q /\
+           neighbor f = None /\
+           (forall p : idx3, In p (nodes f) <-> In p (corners q) /\ get d p = get d sh) /\
+           NoDup (nodes f) /\ (forall p : idx3, In p (nodes f) -> in_cps sh p).
+Proof. exact @boundary_upper_face_nodes. Qed.
+Print Assumptions C18_boundary_upper_face_nodes.
+
+Theorem C18_internal_face_orientation :
+  forall (start : nat) (sh : idx3) (d : nat) (f : face),
+         d < 3 ->
+         In f (internal_faces start sh d) ->
+         normal f = zunit d /\
+         normal012 f = zunit d /\
+         BinInt.Z.lt BinNums.Z0 (zget d (normal f)) /\
+         (exists q : idx3,
+            in_cells sh q /\
+            in_cells sh (add_e d q) /\
+            owner f = cell_number start sh q /\
+            neighbor f = Some (cell_number start sh (add_e d q)) /\ normal f = vsub (zpt (add_e d q)) (zpt q)).
+Proof. exact @internal_face_orientation. Qed.
+Print Assumptions C18_internal_face_orientation.
+
+Theorem C18_boundary_upper_face_orientation :
+  forall (start : nat) (sh : idx3) (d : nat) (f : face),
+         d < 3 ->
+         pos_shape sh ->
+         In f (boundary_faces start sh d true) ->
+         normal f = zunit d /\ normal012 f = zunit d /\ BinInt.Z.lt BinNums.Z0 (zget d (normal f)).
+Proof. exact @boundary_upper_face_orientation. Qed.
+Print Assumptions C18_boundary_upper_face_orientation.
+
+Theorem C18_boundary_lower_face_orientation :
+  forall (start : nat) (sh : idx3) (d : nat) (f : face),
+         d < 3 ->
+         pos_shape sh ->
+         In f (boundary_faces start sh d false) ->
+         normal f = vneg (zunit d) /\ normal012 f = vneg (zunit d) /\ BinInt.Z.lt (zget d (normal f)) BinNums.Z0.
+Proof. exact @boundary_lower_face_orientation. Qed.
+Print Assumptions C18_boundary_lower_face_orientation.
+
+Theorem C18_owner_below_neighbour :
+  forall (start : nat) (sh : idx3) (f : face),
+         pos_shape sh ->
+         In f (patch_faces start sh) -> match neighbor f with
+                                        | Some m => owner f < m
+                                        | None => True
+                                        end.
+Proof. exact @faces_final_assert. Qed.
+Print Assumptions C18_owner_below_neighbour.
+
+Theorem C18_no_face_twice :
+  forall (start : nat) (sh : idx3), pos_shape sh -> NoDup (map face_key (patch_faces start sh)).
+Proof. exact @patch_faces_key_NoDup. Qed.
+Print Assumptions C18_no_face_twice.
+
